@@ -56,7 +56,14 @@ def check_function(P, specs, key, outdir, timeout, tier):
     try:
         info = cbmcdrv.build_check(P, specs, key, outdir)
         r.info = info
-        res = cbmcdrv.run_cbmc(info, timeout=timeout)
+        opts = {o.split('=')[0]: (o.split('=') + [''])[1] for o in info.get('options', [])}
+        kw = {}
+        if 'precise' in opts:
+            kw['defs'] = ('VERIF_CBMC',)
+            r.bounded = 'model loops unwound (unwind=%s, unwinding assertions on: complete when they pass)' % opts.get('unwind', '?')
+        if 'unwind' in opts:
+            kw['unwind'] = int(opts['unwind'])
+        res = cbmcdrv.run_cbmc(info, timeout=timeout, **kw)
         r.obligations = res['obligations']
         r.cmd = res['cmd']
         if res['messages']:
